@@ -73,7 +73,20 @@ pub fn number_to_string(n: f64) -> String {
     // Number::toString (ECMAScript 6.1.6.1.20): take the shortest decimal digits that
     // round-trip (Rust's `{:e}` produces exactly those) and choose the notation from the
     // decimal exponent.
-    let sci = format!("{:e}", n.abs());
+    let shortest = format!("{:e}", n.abs());
+    // When two digit strings of the shortest length round-trip, the specification wants the one
+    // closest to the value (ties to even); correctly rounding to that many digits gives it.
+    let digit_count = shortest
+        .chars()
+        .take_while(|c| *c != 'e')
+        .filter(|c| *c != '.')
+        .count();
+    let rounded = format!("{:.*e}", digit_count.saturating_sub(1), n.abs());
+    let sci = if rounded.parse::<f64>() == Ok(n.abs()) {
+        rounded
+    } else {
+        shortest
+    };
     let (mantissa, exp) = sci.split_once('e').unwrap_or((sci.as_str(), "0"));
     let exp: i32 = exp.parse().unwrap_or(0);
     let digits: String = mantissa.chars().filter(|c| *c != '.').collect();
